@@ -32,7 +32,11 @@ def drive : List String → String
         let kk : Option Nat := if k == "-" then none else k.toNat?
         let (d, _, stop) := deliver vis kk
         -- a member whose listing breaks off: the merged items, then the error, unless the consumer stopped
-        let failing := layers.contains "unifyerr"
+        -- "unifynf": the second member (items 1 and 2 of every three) ends with NAME_UNKNOWN after its items (F34): an
+        -- error unless it delivered nothing, in which case it simply does not know the repository
+        let bItems := (items.zipIdx.filter fun p => p.2 % 3 != 0).map (·.1)
+        let failing := layers.contains "unifyerr" ||
+          (layers.contains "unifynf" && !(after (Mem.sortBytes (dedup bItems)) (some start)).isEmpty)
         let endS := if stop then "stopped" else if failing then "error" else "done"
         let calls := if !stop && failing then d.length + 1 else d.length
         s!"yield [{" ".intercalate (d.map Hex.encodeTok)}] end={endS} calls={calls}"
